@@ -1,4 +1,4 @@
-CONSTANTS MaxN = 6  KeyTop = 4
+CONSTANTS MaxN = 6  KeyTop = 3
 SPECIFICATION Spec
 INVARIANT PredicatesSound
 CHECK_DEADLOCK FALSE
